@@ -14,6 +14,12 @@ IRNOTE = ("Trusted: clang 14 IR generation and -O2 pipeline (used only as a norm
           "through the public layout_t / subarray constructors, element type double, raw pointers; D<=3 quick, D<=4 thorough "
           "(D<=3 for operations that add a dimension).")
 
+ANOTE = ("Trusted: clang 14 -O0 IR generation (incl. exception edges) + mem2reg; vlib/ir0.py, vlib/absint.py (term-domain abstract interpreter: the "
+         "container layer is interpreted, allocation / element primitives are events, value-type helpers are opaque pure terms), vlib/typestate.py, "
+         "vlib/ownrules.py; the primitive table; record layouts from clang. Element type Tracked (all special members external, noexcept(false)), "
+         "allocator ObsAlloc (allocate may throw, deallocate noexcept, propagate traits as template parameters); D in {1,2} quick, {1,2,3} thorough. "
+         "Paths are enumerated per operation with a bound (exceeding it is exit 2, never a pass).")
+
 CHECKS = {
     "C01": dict(
         engine="irval", category="proof",
@@ -42,6 +48,66 @@ CHECKS = {
              "index tuple is decided structurally (R02.couple, engine A) together with O02.canon; data-dependent carries are covered by the "
              "exhaustive carry-pattern case split, not by path enumeration.",
         technique="abstract interpretation of -O2 LLVM IR in a polynomial domain (div/mod as hash-consed atoms) + compile-time witnesses",
+    ),
+    "C04": dict(
+        engine="mfacts", category="other",
+        text=("Structural necessary conditions of value semantics, decided on every path of every copy / move / assignment / swap of static_array "
+              "and array: copies end with base_ at a block freshly obtained from the array's own allocator and reach element copies; moves adopt the "
+              "source block, run no element operation and no allocation, and reset the source to the empty layout; on no normal path do two arrays own "
+              "one block; copy / move assignment have an effect-free path under this == &other; type-level witnesses (decay / unary + own, nothrow "
+              "move, views not copy constructible). Breaking any of these breaks value semantics; equality of values along histories is not decided."),
+        design_ref="DESIGN.md 3/C04, 2.1", note=ANOTE,
+        technique="path-sensitive abstract interpretation of -O0 LLVM IR (provenance / effect rules over event traces) + compile-time witnesses",
+    ),
+    "C05": dict(
+        engine="mfacts", category="other",
+        text=("For every assignment-through-view form (view = view / array / moved view, swap of views, elements() = elements(), array_ref = array_ref, "
+              "row = row, fill): no path writes base_ or the layout of any array or view, allocates, deallocates, constructs or destroys (cannot rebind, "
+              "resize or reallocate); the normal path reaches an element-assignment primitive; source and destination are traversed by the same kind of "
+              "range. Plus rvalue-ness of element_moved / moved arrays at the type level. The extents assertion is C20."),
+        design_ref="DESIGN.md 3/C05", note=ANOTE,
+        technique="effect rules over abstract-interpretation event traces of -O0 LLVM IR + compile-time witnesses",
+    ),
+    "C06": dict(
+        engine="mfacts", category="other",
+        text=("reextent (three overloads): effect-free early return on equal extents; on resizing paths allocate, construct ALL new elements, copy over "
+              "intersection(this->extensions(), new extensions), then destroy / deallocate old and commit; clear() ends empty; reshape touches only "
+              "the layout. intersection(range / extension_t / extensions_t<1,2>) is exact for ALL integers: evaluated in the polynomial domain under "
+              "every weak ordering of its four endpoints (exhaustive for a function that only compares)."),
+        design_ref="DESIGN.md 3/C06", note=ANOTE + " Engine L trusted base as for C01.",
+        technique="order / effect rules over abstract-interpretation traces + order-type enumeration in the polynomial IR domain",
+    ),
+    "C08": dict(
+        engine="mfacts", category="other",
+        text=("Inductive invariant over histories: a typestate automaton over (storage, layout, element liveness) is run over every normal-exit path of "
+              "every constructor, destructor, assignment and mutator (70 driver operations per D): nothing is constructed over live objects, destroyed / "
+              "assigned while dead, deallocated while alive or twice; every block is released with the element count it was requested with (count terms "
+              "compared structurally); each array ends in INV; no block is unowned. With a trivially default constructible element the sizing "
+              "constructors and reextent(x) contain no element-construction event. INV at every public boundary gives exactly-once construction / "
+              "destruction over all histories by induction."),
+        design_ref="DESIGN.md 3/C08, 2.1", note=ANOTE,
+        technique="typestate analysis by path-sensitive abstract interpretation of -O0 LLVM IR",
+    ),
+    "C09": dict(
+        engine="mfacts", category="other",
+        text=("The same typestate automaton evaluated at every exceptional exit: one path per may-throw event (the allocation, each element "
+              "construction / assignment primitive) of every operation, following the IR's exception edges: every live array must satisfy INV (safe to "
+              "destroy), a failed constructor must leave no block, no block may be unowned. Plus: no noexcept function invokes something that may "
+              "throw; every construct-in-a-loop helper catches all, destroys the prefix and rethrows; operations that need no storage have no "
+              "allocation event. Covers every single injection point, which fault-injection tests only sample. 49 genuine defects of the pinned tree "
+              "(six root causes) are listed as known findings."),
+        design_ref="DESIGN.md 3/C09, 6", note=ANOTE,
+        technique="typestate analysis over exception edges (invoke / landingpad / resume) of -O0 LLVM IR",
+    ),
+    "C10": dict(
+        engine="mfacts", category="other",
+        text=("Differential instantiation with the propagate_on_container_{copy_assignment, move_assignment, swap} traits true / false (2 configurations "
+              "quick, 8 thorough): allocate / deallocate only through the array's own alloc_ member; every block released through an allocator value "
+              "equal to the allocating one; copy construction uses select_on_container_copy_construction; allocator-extended constructors use the "
+              "supplied allocator; alloc_ is replaced exactly when the trait says so; at every normal exit the releasing allocator equals the "
+              "producing one unless an equality test dominates. Three root causes on the pinned tree are known findings."),
+        design_ref="DESIGN.md 3/C10", note=ANOTE,
+        technique="allocator-value tracking in the abstract interpreter; differential instantiation over trait configurations",
     ),
     "C12": dict(
         engine="irval", category="proof",
